@@ -11,6 +11,8 @@ from harness import c06_gen as G
 from harness import c06_sections as S
 from harness import c06_pairs as PR
 from harness import c06_scope as CS
+from harness import c06_comp as CC
+from harness import pyast_wire as PW
 from harness import progen
 from harness import stmt_wire as SW
 
@@ -914,6 +916,119 @@ def part_scripts(ctx, dist, samples):
 
 
 
+# ------------------------------------------------------------------ L. binders with a scope of their own that re-use an outer name
+def _enc_rhs(targets, elt):
+    w = [0, PW.enc_src(elt)]
+    for t in reversed(targets):
+        w = [1, t, PW.enc_src("3"), w]
+    return w
+
+
+def _comp_verdict(src, expect, r, c):
+    """-> None | (key, what, expected, observed)"""
+    if not c["compiled"]:
+        return ("scoped-binder:compile", "accepted script in which a comprehension / parameter / function-local loop variable re-uses the name of an outer variable does not compile",
+                "g++ -std=gnu++17 compiles and links", re.findall(r"error: .*", c["compile_log"])[:4] or "g++ error")
+    bad = CC.check_expect(r["cpp"], expect)
+    if bad:
+        return ("scoped-binder:declared-type", "an identifier is declared with another type than the value it is first assigned (a copy of / the return value of a variable declared earlier, "
+                "whose name a comprehension or another binder with a scope of its own re-uses)",
+                {n: w for n, w, _ in bad}, {n: g for n, _, g in bad})
+    return None
+
+
+def part_comp(ctx, dist, samples):
+    rng = ctx.rng
+    thorough = ctx.tier == "thorough"
+    # L1: the property's clause on the real artefacts
+    if thorough:
+        groups = [[sc] for sc in CC.exhaustive_scenarios(rng, None)]
+        groups += [[CC.scenario(rng) for _ in range(rng.choice([1, 2, 3]))] for _ in range(260)]
+    else:
+        ex = CC.exhaustive_scenarios(rng, 2)
+        groups = [ex[k:k + 2] for k in range(0, len(ex), 2)]
+        groups += [[CC.scenario(rng) for _ in range(rng.choice([2, 3]))] for _ in range(8)]
+    built = [CC.build(g) for g in groups]
+    for g in groups:
+        for sc in g:
+            dist[f"L:scenario site={sc['site']}"] += 1
+            dist[f"L:scenario outer type={sc['type']}"] += 1
+    inside = []
+    for g, (src, ex) in zip(groups, built):
+        sh = G.shapes_of(src)
+        if sh:
+            for k in sh:
+                dist["L:outside-guard:" + k] += 1
+            continue
+        inside.append((g, src, ex))
+    res = _compile_many([src for _, src, _ in inside])
+    n_eval = 0
+    for (g, src, ex), (r, c) in zip(inside, res):
+        if not r["ok"]:
+            dist["L:rejected:" + r["exc"]] += 1
+            continue
+        n_eval += 1 + len(ex["vars"]) + len(ex["fns"])
+        dist["L:scripts compiled and read back"] += 1
+        v = _comp_verdict(src, ex, r, c)
+        if v is None:
+            continue
+        # reduce to single scenarios
+        shown = False
+        if len(g) > 1:
+            singles = [CC.build([sc]) for sc in g]
+            for sc, (s1, e1), (r1, c1) in zip(g, singles, _compile_many([s for s, _ in singles])):
+                if r1["ok"]:
+                    v1 = _comp_verdict(s1, e1, r1, c1)
+                    if v1:
+                        shown = True
+                        ctx.fail(v1[1], {"script": s1, "site": sc["site"], "outer_type": sc["type"]}, v1[2], v1[3], key=v1[0] + ":" + sc["site"].split("_")[0])
+        if not shown:
+            ctx.fail(v[1], {"script": src, "sites": [sc["site"] for sc in g], "outer_types": [sc["type"] for sc in g]}, v[2], v[3], key=v[0])
+    if inside:
+        samples.append({"script": inside[0][1]})
+    # L2: Lang/CompScope.v against the real parse() + emit() on sequences of top-level assignments
+    n = 400 if thorough else 90
+    progs = [CC.flat_program(rng, rng.randint(2, 7)) for _ in range(n)]
+    progs = [p for p in progs if p]
+    srcs = [HEAD + "\n".join(CC.flat_source(p)) + "\nwhile True:\n    sleep(100)\n" for p in progs]
+    _, tr = transpile(srcs)
+    mo = ctx.model([[12, [[x, _enc_rhs(ts, e)] for x, ts, e in p]] for p in progs]) if ctx.exe else [None] * len(progs)
+    for p, src, r, m in zip(progs, srcs, tr, mo):
+        reuse = sum(1 for x, ts, e in p if ts and any(t in [y for y, _, _ in p] for t in ts))
+        dist["L:flat programs with a comprehension over a declared name" if reuse else "L:flat programs without re-use"] += 1
+        if m is None:
+            continue
+        n_eval += 1
+        if m[0] != 0:
+            ctx.disagree("model could not decode the assignment sequence", {"script": src}, m, p)
+            continue
+        run, pure, ref, scoped, pop = m[1], m[2], m[3], m[4], m[5]
+        if not pure:
+            dist["L:flat outside the guard pure_run"] += 1
+        if run[0] == 0 or not r["ok"]:
+            if (run[0] == 0) != (not r["ok"]):
+                ctx.disagree("assignment sequence: accepted by one of model / transpiler only", {"script": src}, "rejected" if run[0] == 0 else "accepted", r.get("exc", "accepted"))
+            dist["L:flat rejected"] += 1
+            continue
+        decls = [(C.wstr(d[0]), C.wstr(d[1])) for d in run[1]]
+        real = [(x, CC.declared_types(r["cpp"], x)) for x, _ in decls]
+        if any(g != [t] for (_, t), (_, g) in zip(decls, real)):
+            ctx.disagree("declared C++ types of a sequence of assignments: Lang/CompScope.v (run) vs the declarations in the emitted text", {"script": src}, decls, real)
+        names = []
+        for x, _, _ in p:
+            if x not in names:
+                names.append(x)
+        if [x for x, _ in decls] != names:
+            ctx.disagree("which names a sequence of assignments declares: model vs assigned names in order", {"script": src}, [x for x, _ in decls], names)
+        if pure and (ref[0] != 1 or [(C.wstr(d[0]), C.wstr(d[1])) for d in ref[1]] != decls):
+            ctx.disagree("extracted model contradicts C06_declarations_are_lexical_partial", {"script": src}, decls, ref)
+        if not scoped:
+            ctx.disagree("extracted model contradicts C06_assignments_block_scoped", {"script": src}, "scoped", "redeclaration")
+        if pop[0] == 1 and [(C.wstr(d[0]), C.wstr(d[1])) for d in pop[1]] != decls:
+            dist["L:flat programs on which a popping finally would declare another type"] += 1
+    return n_eval
+
+
 # ------------------------------------------------------------------ H. every statement shape, and every pair of them, in ONE block
 def _compile_many(srcs):
     """-> [(transpile result, compile result or None)]"""
@@ -1363,6 +1478,7 @@ def run(ctx: C.Ctx):
     n6 += check_scopes(ctx, [(src, r, c) for _, src, r, c in pair_batch], dist, consts); lap("I scopes of the sequences")
     n7 = part_reserved(ctx, dist); lap("J reserved identifiers")
     n8 = part_exc(ctx, dist); lap("K exception classes")
+    n9 = part_comp(ctx, dist, samples); lap("L scoped binders re-using outer names")
 
     for f in local_findings(ctx):
         if f.get("kind") == "fixed":
@@ -1378,7 +1494,7 @@ def run(ctx: C.Ctx):
             ctx.disagree("listed finding's witness is inside the executable guard", {"script": w}, "outside", "inside")
 
     ctx.coverage.update({
-        "evaluations": n1 + n2 + n3 + n4 + n5 + n6 + n7 + n8,
+        "evaluations": n1 + n2 + n3 + n4 + n5 + n6 + n7 + n8 + n9,
         "distinct_nontrivial": nt1 + nt4,
         "rule": "fixed findings: every witness recorded as fixed (ten, three of them - literal concatenation, named except, reserved identifier - since this repair) is replayed first (a failure is a VIOLATION with the witness as replay). "
                 "A: escape on special strings + all 1/2-character strings over a 21-symbol boundary alphabet (incl. LF, CR, TAB, NUL, 0x01, 0x1f, DEL, digits) + all 3-character strings over 8 symbols + every code point below 256 alone and in front of 0 7 8 a f backslash quote LF + seeded strings, half printable (ASCII incl. quote/backslash/?, Unicode), half with control characters mixed in (often right before a digit / hex digit / backslash / quote) (model vs _escape_string_literal; the real output lexed by the model lexer must give back the string - for EVERY string; the three escape call sites of _to_c_expr). "
